@@ -9,7 +9,7 @@ def _nontrivial(block):
 
 
 CONFIG = {
-    "runs": props.simple("c11", 150, 1200),
+    "runs": props.simple("c11", 400, 1200),
     "nontrivial": _nontrivial,
     "status": "PARTIAL by design. "
               "FULL (Coq, closed): the unit-clause edit on the flattened vector (unit_edit = add_unit_clause + rebuild as delete "
